@@ -404,9 +404,11 @@ class LoadScopeScheduling:
                 self.log(f"Shutting down unused node {unused_node}")
                 unused_node.shutdown()
 
-        # Assign initial workload
+        # Assign initial workload (a replacement node which is still collecting
+        # gets its share when its collection arrives)
         for node in self.nodes:
-            self._assign_work_unit(node)
+            if node in self.registered_collections:
+                self._assign_work_unit(node)
 
         # Ensure nodes start with at least two work units if possible (#277)
         for node in self.nodes:
